@@ -50,6 +50,10 @@ def gen_cases(ctx):
     # conductive fully anisotropic tiers (3x3 update matrices A = M1^-1 M2, B = c M1^-1 T; model/YeeFull.v forward_lossy), forced complex storage
     for i in range(ctx.pick(2, 8)):
         c = C01.rand_case(ctx.rng, True, 4 * i + (1 if i % 2 else 0))      # uniform and stretched grids
+        for _ in range(40):      # small boxes only: the 3x3 solves leave the dyadic regime and exact rationals grow quickly
+            if c["shape"][0] * c["shape"][1] * c["shape"][2] <= 8:
+                break
+            c = C01.rand_case(ctx.rng, True, 4 * i + (1 if i % 2 else 0))
         c.pop("kvec", None)
         c["bt"] = {k: ("periodic" if v == "bloch" else v) for k, v in c["bt"].items()}
         c.update(kind="hand", complex=True, steps=2, full_eps=True, full_mu=bool(i % 3 != 1), sigma="EH", full_sigma=bool(i % 2 == 0), pow2=True, lossy9=True)
